@@ -137,15 +137,22 @@ CHECKS = {
         text="Lean theorems over a model of HeaderValue::new (email-encoding's writer, folding writer and RFC 2047 encoder), the header-name "
              "check and the Headers map: value_wf (for every Rust string: no bare CR/LF, every CRLF followed by SP, only HTAB/printable "
              "ASCII), name_safe, section_read_back / headers_read_back (an RFC 5322 reader recovers exactly the stored fields in order and "
-             "the body: nothing supplied can add, split, truncate or terminate a field), names_stay_unique. Line-length bounds (78 / 998) "
+             "the body: nothing supplied can add, split, truncate or terminate a field), names_stay_unique, mailbox_header_wf (the same well-formedness "
+             "for From / Sender / To / Cc / Bcc / Reply-To under every display name: a model of Mailbox(es)::encode with quoted_string::encode's four "
+             "strategies and the repaired write_unbreakable, Model/MailboxEnc.lean, compared octet for octet with the code). Line-length bounds (78 / 998) "
              "are checked on real outputs only (four narrow known findings). Correspondence: names of every length x adversarial texts "
              "(all alignments of 1-4 byte characters, CR/LF/NUL/controls, up to 64 KiB), all ASCII names up to length 2, random "
-             "insert/remove/get sequences; the reader is applied to every real header block.",
+             "insert/remove/get sequences; the nine typed text headers and Content-Type through their own display() (compared with the encoder "
+             "model, read back); mailbox headers of every kind and mailbox lists of up to 120 entries on the wire (one field, lines within 998, an "
+             "over-long line only around a token that cannot fit); built messages' Date / From counts; the reader is applied to every real "
+             "header block.",
         design_ref="DESIGN.md 5 C02",
         note="Trusted: Lean kernel; axioms propext/Quot.sound/Classical.choice; Spec/HeaderReader.lean as the reading of RFC 5322 2.2; hypothesis "
-             "ContRunsLe3 (a Rust str never has 4 continuation octets in a row); model + harness. Typed header constructors and whole "
-             "messages are covered by C17/C01/C11's checks. Known findings: HTAB is not a fold point, trailing spaces past column 78, "
-             "spaces before an encoded-word not counted, a run of 900+ spaces on one line.",
+             "ContRunsLe3 (a Rust str never has 4 continuation octets in a row); model + harness. "
+             "Known findings: HTAB is not a fold point, trailing spaces past column 78, "
+             "spaces before an encoded-word not counted, a run of 900+ spaces on one line, the first word of a display name after `, ` not "
+             "folded, Content-Disposition names with quoted-pairs. Repaired in /repo (4d26e13): mailbox headers were never folded before an "
+             "address (a 60-recipient To header was one line of 1492 octets).",
         technique="Lean 4 proof (writer invariant through folding and RFC 2047 encoding; reader lemma by induction) + correspondence with an RFC 5322 reader on real output"),
     "C12": dict(
         category="proof",
@@ -170,11 +177,11 @@ CHECKS = {
              "arithmetic: date_roundtrip (toSecs (civil t) = t for every instant, no upper bound: 400-year cycle argument over a model that "
              "transcribes httpdate's two conversions), date_injective, date_fields_in_range (month, day of month, weekday), date_time_of_day. "
              "The mailbox grammar round trip (display, then the chumsky grammar transcribed as a PEG, then Address::new) is proved: "
-             "mailbox_roundtrip and mailbox_list_roundtrip (for every mailbox / non-empty list whose addresses are dot-atom@dot-atom and "
+             "mailbox_roundtrip and mailbox_list_roundtrip (for every mailbox / non-empty list whose addresses have a dot-atom or quoted local part and a dot-atom or literal domain (class GoodAddr) and "
              "EVERY display name - quotes, commas, angle brackets, CR, LF, NUL included - Display does not fail and FromStr returns equal "
              "mailboxes in the same order: the same address, and a name equal up to normName), display_name_is_one_phrase (the grammar returns "
              "the name with runs of blanks reduced to their first), address_class_sound (Proofs/Peg.lean: ~1200 lines over the combinators). "
-             "Partial: addresses with a quoted local part or a domain literal are outside the proved class; the check reports per real mailbox "
+             "Partial: addresses whose characters the grammar's classes do not cover although Address::new accepts them are outside the proved class; the check reports per real mailbox "
              "whether it is in the class (evidence ok_notes cls=proved / cls=checked-only). "
              "All of it is tied by the correspondence check: the "
              "Display model, the PEG model (grammar observed through a hook, on valid and malformed texts), the date model (first and last "
@@ -184,23 +191,23 @@ CHECKS = {
         design_ref="DESIGN.md 5 C17",
         note="Trusted: Lean kernel; axioms propext/Quot.sound/Classical.choice; Spec/StructuredDec.lean; the mime crate (A4); model + harness. Three "
              "defects fixed in /repo (CR/LF/NUL names, quoted local parts, address literals).",
-        technique="Lean 4 proof (header map; date arithmetic round trip for all instants; PEG grammar o Display = identity up to name normalisation, for dot-atom addresses under every name) + model-vs-code correspondence of display, PEG grammar and date arithmetic with property oracles"),
+        technique="Lean 4 proof (header map; date arithmetic round trip for all instants; PEG grammar o Display = identity up to name normalisation, for dot-atom / quoted local parts and dot-atom / literal domains under every name) + model-vs-code correspondence of display, PEG grammar and date arithmetic with property oracles"),
     "C01": dict(
         category="proof",
         text="Lean theorems: builder_refines_spec (for every sequence of builder calls the code's text store - re-parse, join, re-display "
              "on every call: Model/Builder.lean - gives exactly what the typed store demands: same error, or same envelope and Bcc decision, "
              "never a panic; hypothesis EmailsRoundTrip: the addresses involved survive Display followed by parsing), "
-             "builder_refines_spec_dot_atoms (the same with no hypothesis for every program over dot-atom@dot-atom addresses and any names: "
+             "builder_refines_spec_unconditional (the same with no hypothesis for every program over addresses of the class GoodAddr - dot-atom or quoted local part, dot-atom or literal domain - and any names: "
              "EmailsRoundTrip is a theorem there, Proofs/Peg.lean emails_round_trip), display_total (Display never "
              "fails), and the decision logic of the typed store stated outright: spec_errors_exact, spec_envelope_exact (To, Cc, Bcc in "
-             "order; Sender else single From), spec_explicit_envelope, spec_calls_accumulate. Partial: for addresses with a quoted local part "
-             "or a domain literal EmailsRoundTrip is not proved (checked per case; evidence ok_notes cls=proved / cls=checked-only counts the "
+             "order; Sender else single From), spec_explicit_envelope, spec_calls_accumulate. Partial: for addresses outside the class "
+             "GoodAddr EmailsRoundTrip is not proved (checked per case; evidence ok_notes cls=proved / cls=checked-only counts the "
              "programs inside / outside the proved class). Correspondence: random builder programs of 1..14 calls over adversarial names "
              "and every address class; both the model of the code and the typed-store specification are compared with Message::envelope(), "
              "the error kind, and the presence of Bcc in the formatted header section.",
         design_ref="DESIGN.md 5 C01",
         note="Trusted: Lean kernel; axioms propext/Quot.sound/Classical.choice; Builder.specBuild as the meaning of the property; model + harness.",
-        technique="Lean 4 proof (refinement of the text-store model to the typed-store specification; its round-trip hypothesis proved for dot-atom addresses from the PEG grammar model; decision logic of the specification) + model-and-spec-vs-code correspondence on random builder programs"),
+        technique="Lean 4 proof (refinement of the text-store model to the typed-store specification; its round-trip hypothesis proved from the PEG grammar model for dot-atom / quoted local parts and dot-atom / literal domains; decision logic of the specification) + model-and-spec-vs-code correspondence on random builder programs"),
     "C11": dict(
         category="proof",
         text="Lean theorems on the formatting model: parse_format / parse_format_multipart / parse_message (the RFC 2046 reader of "
